@@ -1,6 +1,4 @@
 //@include prelude/head.rs
-use std::collections::hash_map::Entry;
-use std::collections::HashMap;
 broadcast use {ax::axiom_string_eq_spec, ax::axiom_string_obeys_eq, ax::axiom_string_to_string, tmod::axiom_taskmap_view_injective, ax::axiom_string_view_injective, vstd::std_specs::hash::group_hash_axioms, axh::axiom_uuid_key_model};
 //@include prelude/hash.rs
 //@props C16
